@@ -702,8 +702,8 @@ pub fn run(ctx: &Ctx) -> Report {
     );
     hooks::ensure_installed();
     // (a)
-    let b = ctx.tier.pick(2usize, 3usize);
-    let hs = vec![
+    let b = ctx.tier.pick(2usize, 4usize);
+    let mut hs = vec![
         (Swap { loggers: 1, records: 2, setters: vec!['B'] }, b + 1),
         (Swap { loggers: 2, records: 1, setters: vec!['B'] }, b),
         (Swap { loggers: 1, records: 2, setters: vec!['B', 'C'] }, b),
@@ -712,6 +712,11 @@ pub fn run(ctx: &Ctx) -> Report {
         (Swap { loggers: 1, records: 2, setters: vec!['D'] }, b + 1),
         (Swap { loggers: 2, records: 1, setters: vec!['D', 'A'] }, b),
     ];
+    if ctx.tier == crate::engine::Tier::Thorough {
+        // four controlled threads: two loggers against two reconfiguring threads
+        hs.push((Swap { loggers: 2, records: 2, setters: vec!['B', 'C'] }, 2));
+        hs.push((Swap { loggers: 2, records: 2, setters: vec!['B'] }, 3));
+    }
     let mut notes = vec![];
     for (h, bound) in &hs {
         let (stats, outcomes, viols) = sched::explore(*bound, |p| swap_exec(h, p), &|| ctx.over_cap());
